@@ -11,6 +11,7 @@ pub fn run(ctx: &Ctx) -> i32 {
             "addrsort" => replay_one(ctx, &SortEngine, &rf),
             "addrsort-e2e" => replay_one(ctx, &E2eEngine, &rf),
             "addrsort-port" => replay_one(ctx, &PortEngine, &rf),
+            "addrsort-order" => replay_one(ctx, &OrderEngine, &rf),
             other => Err(format!("unknown engine {other}")),
         }) {
             Ok(c) => c,
@@ -36,6 +37,8 @@ pub fn run(ctx: &Ctx) -> i32 {
     // the port of the request URI (explicit or the scheme's default) reaches the socket, through
     // TcpTransport and SimpleTcpTransport, whatever port the resolver's answer carries
     total.merge(run_generated(&e2e_ctx, &PortEngine, "uri-port", port_strategy, ctx.cases(240, 4000), 40));
+    // unlimited concurrency: the order in which the attempts reach one dual-stack listener
+    total.merge(run_generated(&e2e_ctx, &OrderEngine, "attempt-order", order_strategy, ctx.cases(200, 4000), 40));
     finish(
         ctx,
         started,
